@@ -6,8 +6,8 @@
    Proof style: the generated primitives are rewritten into the model's ([m_get] -> [nthZ], ...), then case analysis on
    every condition and every access; loops by induction on the fuel through [while_unfold]. *)
 From Coq Require Import List ZArith Lia Bool Arith.
-From V Require Import Model.Heap Proofs.HeapSift Proofs.HeapTop.
-From V Require Import Lib.GoSem Proofs.GoSemFacts Gen.HeapCode.
+From V Require Import Lib.Enc Model.Heap Proofs.HeapSift Proofs.HeapTop Run.C04.
+From V Require Import Lib.GoSem Proofs.GoSemFacts Gen.HeapCode Run.C04Code.
 Import ListNotations.
 Local Open Scope Z_scope.
 
@@ -42,6 +42,8 @@ Proof.
   - left. split; [|eauto]. assert (Z.to_nat i < length l)%nat by (apply nth_error_Some; congruence). lia.
   - right. split; [|reflexivity]. apply nth_error_None in E. lia.
 Qed.
+
+Lemma Zlen_nonneg (l : list Z) : 0 <= Zlen l. Proof. unfold Zlen. lia. Qed.
 
 Lemma Zlen_upd (l : list Z) i x : Zlen (Heap.upd l i x) = Zlen l.
 Proof. unfold Zlen. rewrite upd_length. reflexivity. Qed.
@@ -100,6 +102,12 @@ Ltac zb :=
   | H : andb _ _ = false |- _ => apply andb_false_iff in H
   end.
 
+(* lengths are not negative (lia does not look inside Zlen) *)
+Ltac zlen_facts :=
+  repeat match goal with
+  | |- context [Zlen ?l] => lazymatch goal with H : 0 <= Zlen l |- _ => fail | _ => pose proof (Zlen_nonneg l) end
+  | H0 : context [Zlen ?l] |- _ => lazymatch goal with H : 0 <= Zlen l |- _ => fail | _ => pose proof (Zlen_nonneg l) end
+  end.
 (* one step: rewrite a generated primitive into the model's, or split on the next access / condition *)
 Ltac prim1 :=
   match goal with
@@ -110,15 +118,24 @@ Ltac prim1 :=
   | |- context [if negb ?c then _ else _] => rewrite (if_negb _ c)
   | |- context [if ?c then _ else _] => destruct c eqn:?
   | H : nthZ ?l ?i = _ |- context [nthZ ?l ?i] => rewrite H
+  | H : nthZ ?l ?i = _ |- context [nthZ ?l ?j] =>      (* the same access, its index written differently *)
+      tryif constr_eq i j then fail else (replace (nthZ l j) with (nthZ l i) by (f_equal; zb; zlen_facts; lia)); rewrite H
   | |- context [nthZ ?l ?i] => case_nth l i
-  | |- context [m_set ?l ?i ?x] => rewrite (m_set_in l i x) by (rewrite ?Zlen_upd; lia)
-  | |- context [m_slice ?l 0 ?n] => rewrite (m_slice_prefix l n) by (rewrite ?Zlen_upd; lia)
+  | |- context [m_set ?l ?i ?x] => rewrite (m_set_in l i x) by (rewrite ?Zlen_upd; zb; zlen_facts; lia)
+  | |- context [m_slice ?l 0 ?n] => rewrite (m_slice_prefix l n) by (rewrite ?Zlen_upd; zb; zlen_facts; lia)
   end; simp.
-Ltac done := try reflexivity; try congruence; zb; try lia; try (exfalso; intuition lia).
+Ltac done := try reflexivity; try congruence; zb; try lia; zlen_facts; try lia; try (exfalso; intuition lia).
+
+(* hooks, extended below (Ltac ... ::=) as the theorems they use become available *)
+Ltac calls := fail.      (* a call of generated code -> the model's function (the code_... theorems) *)
+Ltac reuse := fail.      (* a model computation whose result is already known *)
+Ltac results := fail.    (* split on the result of a model computation *)
+Ltac step := first [ calls; simp | reuse; simp | prim1 | results; simp ].
+Ltac steps := cbv beta iota zeta; simp; repeat step.
 
 (* ---------------------------------------------------------------- adjustment.go: swap *)
 Theorem code_swap : forall s i j, g_swap s i j = cv id (swapL Z s i j).
-Proof. intros. unfold g_swap, swapL. cbv beta zeta; simp; repeat prim1; done. Qed.
+Proof. intros. unfold g_swap, swapL. steps; done. Qed.
 
 Lemma swapL_eq s a b : swapL Z s a b =
   Heap.bind (nthZ s a) (fun x => Heap.bind (nthZ s b) (fun y => Ok (Heap.upd (Heap.upd s (Z.to_nat a) y) (Z.to_nat b) x))).
@@ -127,19 +144,32 @@ Proof. reflexivity. Qed.
 Lemma swapL_Zlen s i j s' : swapL Z s i j = Ok s' -> Zlen s' = Zlen s.
 Proof. unfold swapL. case_nth s i; simp; [|discriminate]. case_nth s j; simp; [|discriminate]. intros [= <-]. rewrite !Zlen_upd. reflexivity. Qed.
 
+Lemma upd_comm : forall (l : list Z) i j a b, i <> j -> Heap.upd (Heap.upd l i a) j b = Heap.upd (Heap.upd l j b) i a.
+Proof.
+  induction l as [|h t IH]; intros [|i] [|j] a b H; cbn; try reflexivity; try congruence. rewrite IH by congruence. reflexivity.
+Qed.
+Lemma upd_twice : forall (l : list Z) i a b, Heap.upd (Heap.upd l i a) i b = Heap.upd l i b.
+Proof. induction l as [|h t IH]; intros [|i] a b; cbn; try reflexivity. rewrite IH. reflexivity. Qed.
+
+(* swap(s, i, j) = swap(s, j, i) *)
+Lemma swapL_sym s i j : swapL Z s i j = swapL Z s j i.
+Proof.
+  unfold swapL. case_nth s i; simp; case_nth s j; simp; try reflexivity.
+  destruct (Z.eq_dec i j) as [->|Hne]; [congruence|]. rewrite upd_comm; [reflexivity|]. intros H. apply Hne. lia.
+Qed.
+
 (* a call of the generated swap is the model's swapL; then split on its result *)
-Ltac step1 :=
-  first [ match goal with
-          | |- context [g_swap ?s ?i ?j] => rewrite (code_swap s i j)
-          | H : swapL Z ?s ?i ?j = _ |- context [swapL Z ?s ?i ?j] => rewrite H
-          end; simp
-        | prim1
-        | match goal with
-          | |- context [swapL Z ?s ?i ?j] => let E := fresh "Esw" in destruct (swapL Z s i j) eqn:E
-          end; simp ].
-Ltac steps := cbv beta zeta; simp; repeat step1.
+Ltac calls ::= match goal with |- context [g_swap ?s ?i ?j] => rewrite (code_swap s i j) end.
+Ltac reuse ::=
+  match goal with
+  | H : swapL Z ?s ?i ?j = _ |- context [swapL Z ?s ?i ?j] => rewrite H
+  | H : swapL Z ?s ?i ?j = _ |- context [swapL Z ?s ?j ?i] => rewrite (swapL_sym s j i), H
+  end.
+Ltac results ::=
+  match goal with |- context [swapL Z ?s ?i ?j] => let E := fresh "Esw" in destruct (swapL Z s i j) eqn:E end.
 
 (* ---------------------------------------------------------------- adjustment.go: the sift loops, for every comparison *)
+Opaque g_swap.      (* stays folded under autounfold: it has its own theorem *)
 Section Loops.
 Variable cmp : Z -> Z -> bool.
 Local Notation lessM := (lessL Z cmp).
@@ -164,7 +194,7 @@ Lemma down_while_go : forall n fuel s i,
   down_while n fuel (s, i) = cv (fun r => inl r) (gdown_go (list Z) lessM swapM fuel s i n).
 Proof.
   intros n. induction fuel as [|f IH]; intros s i; [reflexivity|].
-  rewrite (while_unfold (down_while n) _ _ _ (fun _ _ => eq_refl)). cbn [gdown_go]. unfold lessL.
+  rewrite (while_unfold (down_while n) _ _ _ (fun _ _ => eq_refl)). cbn [gdown_go]. unfold lessL. autounfold with go2v.
   steps; try apply IH; done.
 Qed.
 
@@ -181,7 +211,7 @@ Lemma up_while_go : forall fuel s j,
   bind (up_while fuel (s, j)) up_after = cv id (gup_go (list Z) lessM swapM fuel s j).
 Proof.
   induction fuel as [|f IH]; intros s j; [reflexivity|].
-  rewrite (while_unfold up_while _ _ _ (fun _ _ => eq_refl)). cbn [gup_go]. unfold lessL.
+  rewrite (while_unfold up_while _ _ _ (fun _ _ => eq_refl)). cbn [gup_go]. unfold lessL. autounfold with go2v.
   steps; try apply IH; done.
 Qed.
 
@@ -189,7 +219,84 @@ Theorem code_up : forall fuel s j, g_up fuel s cmp g_swap j = cv id (gup_go (lis
 Proof. intros. exact (up_while_go fuel s j). Qed.
 End Loops.
 
+Lemma Zlen_app1 (l : list Z) x : Zlen (l ++ [x]) = Zlen l + 1.
+Proof. unfold Zlen. rewrite app_length. cbn [length]. lia. Qed.
+
+(* the loops keep the length *)
+Section Lengths.
+Variable cmp : Z -> Z -> bool.
+Local Notation lessM := (lessL Z cmp).
+Local Notation swapM := (swapL Z).
+Lemma gdown_go_Zlen : forall f s i n r, gdown_go (list Z) lessM swapM f s i n = Ok r -> Zlen (fst r) = Zlen s.
+Proof.
+  induction f as [|f IH]; intros s i n r; [discriminate|]. cbn [gdown_go]. cbv zeta.
+  destruct ((2 * i + 1 >=? n) || (2 * i + 1 <? 0)); [intros [= <-]; reflexivity|].
+  destruct (if 2 * i + 1 + 1 <? n then lessM s (2 * i + 1 + 1) (2 * i + 1) else Ok false) as [b| |]; cbn [Heap.bind]; try discriminate.
+  destruct (lessM s (if b then 2 * i + 1 + 1 else 2 * i + 1) i) as [c| |]; cbn [Heap.bind]; try discriminate.
+  destruct c; [|intros [= <-]; reflexivity].
+  destruct (swapM s i (if b then 2 * i + 1 + 1 else 2 * i + 1)) as [s'| |] eqn:E; cbn [Heap.bind]; try discriminate.
+  intros H. apply IH in H. apply swapL_Zlen in E. lia.
+Qed.
+Lemma gdown_Zlen f s i n r : gdown (list Z) lessM swapM f s i n = Ok r -> Zlen (fst r) = Zlen s.
+Proof.
+  unfold gdown. destruct (gdown_go (list Z) lessM swapM f s i n) as [q| |] eqn:E; cbn [Heap.bind]; try discriminate.
+  intros [= <-]. exact (gdown_go_Zlen _ _ _ _ _ E).
+Qed.
+Lemma gup_go_Zlen : forall f s j r, gup_go (list Z) lessM swapM f s j = Ok r -> Zlen r = Zlen s.
+Proof.
+  induction f as [|f IH]; intros s j r; [discriminate|]. cbn [gup_go]. cbv zeta.
+  destruct (Z.quot (j - 1) 2 =? j); [intros [= <-]; reflexivity|].
+  destruct (lessM s j (Z.quot (j - 1) 2)) as [c| |]; cbn [Heap.bind]; try discriminate.
+  destruct c; [|intros [= <-]; reflexivity].
+  destruct (swapM s (Z.quot (j - 1) 2) j) as [s'| |] eqn:E; cbn [Heap.bind]; try discriminate.
+  intros H. apply IH in H. apply swapL_Zlen in E. lia.
+Qed.
+Lemma gfix_Zlen f s i n r : gfix (list Z) lessM swapM f s i n = Ok r -> Zlen r = Zlen s.
+Proof.
+  unfold gfix. destruct (gdown (list Z) lessM swapM f s i n) as [q| |] eqn:E; cbn [Heap.bind]; try discriminate.
+  apply gdown_Zlen in E. destruct (snd q); [intros [= <-]; exact E|]. intros H. apply gup_go_Zlen in H. lia.
+Qed.
+End Lengths.
+
+(* two occurrences of a model loop that differ only in how an index is written: make them one *)
+Ltac same_args :=
+  match goal with
+  | |- context [gup_go (list Z) ?l ?w ?f ?s ?j1] =>
+      match goal with |- context [gup_go (list Z) l w f s ?j2] =>
+        tryif constr_eq j1 j2 then fail else
+        replace (gup_go (list Z) l w f s j2) with (gup_go (list Z) l w f s j1) by (f_equal; rewrite ?Zlen_app1; zb; zlen_facts; lia) end
+  | |- context [gdown (list Z) ?l ?w ?f ?s ?i1 ?n1] =>
+      match goal with |- context [gdown (list Z) l w f s ?i2 ?n2] =>
+        tryif (constr_eq i1 i2; constr_eq n1 n2) then fail else
+        replace (gdown (list Z) l w f s i2 n2) with (gdown (list Z) l w f s i1 n1) by (f_equal; rewrite ?Zlen_app1; zb; zlen_facts; lia) end
+  | |- context [gfix (list Z) ?l ?w ?f ?s ?i1 ?n1] =>
+      match goal with |- context [gfix (list Z) l w f s ?i2 ?n2] =>
+        tryif (constr_eq i1 i2; constr_eq n1 n2) then fail else
+        replace (gfix (list Z) l w f s i2 n2) with (gfix (list Z) l w f s i1 n1) by (f_equal; rewrite ?Zlen_app1; zb; zlen_facts; lia) end
+  end.
+
+(* calls of the generated loops are the model's loops; then split on their results *)
+Ltac calls ::=
+  match goal with
+  | |- context [g_swap ?s ?i ?j] => rewrite (code_swap s i j)
+  | |- context [g_down ?f ?s ?c g_swap ?i ?n] => rewrite (code_down c f s i n)
+  | |- context [g_up ?f ?s ?c g_swap ?j] => rewrite (code_up c f s j)
+  end.
+Ltac results ::=
+  first [ same_args
+        | match goal with
+          | |- context [swapL Z ?s ?i ?j] => let E := fresh "Esw" in destruct (swapL Z s i j) eqn:E
+          | |- context [gdown (list Z) ?l ?w ?f ?s ?i ?n] =>
+              let E := fresh "Eg" in destruct (gdown (list Z) l w f s i n) as [[? ?]| |] eqn:E;
+              [try (apply gdown_Zlen in E; cbn [fst] in E; rewrite ?Zlen_upd in E)|..]
+          | |- context [gup_go (list Z) ?l ?w ?f ?s ?j] =>
+              let E := fresh "Eg" in destruct (gup_go (list Z) l w f s j) eqn:E; [try (apply gup_go_Zlen in E; rewrite ?Zlen_upd in E)|..]
+          | |- context [gfix (list Z) ?l ?w ?f ?s ?i ?n] =>
+              let E := fresh "Eg" in destruct (gfix (list Z) l w f s i n) eqn:E; [try (apply gfix_Zlen in E; rewrite ?Zlen_upd in E)|..]
+          end ].
+
 (* ---------------------------------------------------------------- adjustment.go: fix, build *)
+Opaque g_down g_up.
 Section Fix.
 Variable cmp : Z -> Z -> bool.
 Local Notation lessM := (lessL Z cmp).
@@ -198,9 +305,7 @@ Local Notation swapM := (swapL Z).
 Theorem code_fix : forall fuel s i n,
   g_fix fuel s cmp g_swap i n = cv id (gfix (list Z) lessM swapM fuel s i n).
 Proof.
-  intros. unfold g_fix, gfix. rewrite code_down.
-  destruct (gdown (list Z) lessM swapM fuel s i n) as [[s' b]| |]; simp; try reflexivity.
-  rewrite if_negb. destruct b; [reflexivity|]. rewrite code_up. destruct (gup_go (list Z) lessM swapM fuel s' i); reflexivity.
+  intros. unfold g_fix, gfix. autounfold with go2v. steps; done.
 Qed.
 
 (* build: the outer loop (i := n/2 - 1; i >= 0; i--) is the model's structural recursion over the rounds; the fuel of the
@@ -307,44 +412,51 @@ Definition sl_fix_f (fuel : nat) (s : list Z) (i : Z) : Heap.res (list Z) :=
 Definition build_f (fuel : nat) (s : list Z) : Heap.res (list Z) := gbuild (list Z) lessM swapM fuel s (Zlen s).
 End SliceOps.
 
-(* calls of the generated loops are the model's loops; then split on their results *)
-Ltac step2 :=
-  first [ match goal with
-          | |- context [g_down ?f ?s ?c g_swap ?i ?n] => rewrite (code_down c f s i n)
-          | |- context [g_up ?f ?s ?c g_swap ?j] => rewrite (code_up c f s j)
-          | |- context [g_fix ?f ?s ?c g_swap ?i ?n] => rewrite (code_fix c f s i n)
-          end; simp
-        | prim1
-        | match goal with
-          | |- context [gdown (list Z) ?l ?w ?f ?s ?i ?n] => destruct (gdown (list Z) l w f s i n) as [[? ?]| |]
-          | |- context [gup_go (list Z) ?l ?w ?f ?s ?j] => destruct (gup_go (list Z) l w f s j)
-          | |- context [gfix (list Z) ?l ?w ?f ?s ?i ?n] => destruct (gfix (list Z) l w f s i n)
-          end; simp ].
-Ltac steps2 := cbv beta zeta; simp; repeat step2.
-Ltac done2 := cbn [Z.to_nat firstn]; rewrite ?firstn_upd_ge by lia; done.
+(* the Slice methods: generated helper functions are unfolded through the hint database go2v (so that an extracted or inlined
+   helper needs no change here); the functions that have their own theorem stay folded; an applied swapL is unfolded, the
+   methods write the exchange out themselves *)
+Ltac calls ::=
+  match goal with
+  | |- context [g_swap ?s ?i ?j] => rewrite (code_swap s i j)
+  | |- context [g_down ?f ?s ?c g_swap ?i ?n] => rewrite (code_down c f s i n)
+  | |- context [g_up ?f ?s ?c g_swap ?j] => rewrite (code_up c f s j)
+  | |- context [g_fix ?f ?s ?c g_swap ?i ?n] => rewrite (code_fix c f s i n)
+  | |- context [swapL Z ?s ?i ?j] => rewrite (swapL_eq s i j)
+  end.
+Ltac done2 :=
+  repeat match goal with
+  | |- context [Z.to_nat ?e] =>
+      lazymatch e with 0 => fail | _ => replace (Z.to_nat e) with (Z.to_nat 0) by (f_equal; zb; zlen_facts; lia) end
+  end;
+  cbn [Z.to_nat firstn]; rewrite ?firstn_upd_ge by lia; done; try (repeat f_equal; zb; zlen_facts; lia).
+Ltac slice_method :=
+  intros; match goal with s : Slice |- _ => destruct s as [vals c] end;
+  autounfold with go2v; unfold sl_push_f, sl_pop_f, sl_remove_f, sl_fix_f, sl_peek, cut_last; steps; done2.
+Opaque g_fix g_build.
 
 (* for EVERY fuel: the generated methods are the model's operations run with that fuel *)
 Theorem code_Push_fuel : forall fuel s x,
   g_Slice_Push fuel s x = cv (with_values s) (sl_push_f (Slice_cmp s) fuel (Slice_Values s) x).
-Proof. intros fuel [vals c] x. unfold g_Slice_Push, sl_push_f. steps2; done2. Qed.
+Proof. slice_method. Qed.
 
 Theorem code_Pop_fuel : forall fuel s,
   g_Slice_Pop fuel s = cv (st_opt s) (sl_pop_f (Slice_cmp s) fuel (Slice_Values s)).
-Proof. intros fuel [vals c]. unfold g_Slice_Pop, sl_pop_f, cut_last. rewrite ?swapL_eq. steps2; done2. Qed.
+Proof. slice_method. Qed.
 
 Theorem code_Peek : forall s, g_Slice_Peek s = cv opt_res (sl_peek Z (Slice_Values s)).
-Proof. intros [vals c]. unfold g_Slice_Peek, sl_peek. steps2; done2. Qed.
+Proof. slice_method. Qed.
 
 Theorem code_Len : forall s, g_Slice_Len s = Ret (Zlen (Slice_Values s)).
-Proof. intros [vals c]. reflexivity. Qed.
+Proof. slice_method. Qed.
 
 Theorem code_Remove_fuel : forall fuel s i,
   g_Slice_Remove fuel s i = cv (st_opt s) (sl_remove_f (Slice_cmp s) fuel (Slice_Values s) i).
-Proof. intros fuel [vals c] i. unfold g_Slice_Remove, sl_remove_f, cut_last. rewrite ?swapL_eq. steps2; done2. Qed.
+Proof. slice_method. Qed.
 
 Theorem code_Fix_fuel : forall fuel s i,
   g_Slice_Fix fuel s i = cv (with_values s) (sl_fix_f (Slice_cmp s) fuel (Slice_Values s) i).
-Proof. intros fuel [vals c] i. unfold g_Slice_Fix, sl_fix_f. steps2; done2. Qed.
+Proof. slice_method. Qed.
+Transparent g_swap g_up g_down g_fix g_build.
 
 (* ---------------------------------------------------------------- the model's own fuel (fuelL s = S (length s)) suffices *)
 Section Suffices.
@@ -447,3 +559,60 @@ Proof. intros. rewrite code_Remove_fuel, sl_remove_f_model by assumption. reflex
 Theorem code_Fix : forall fuel s i, (fuelL Z (Slice_Values s) <= fuel)%nat ->
   g_Slice_Fix fuel s i = cv (with_values s) (sl_fix Z (Slice_cmp s) (Slice_Values s) i).
 Proof. intros. rewrite code_Fix_fuel, sl_fix_f_model by assumption. reflexivity. Qed.
+
+(* ---------------------------------------------------------------- the case interpreter through the generated code *)
+Lemma opt_of_res o : opt_of (opt_res o) = o. Proof. destruct o; reflexivity. Qed.
+Definition st_obs (r : list Z * lobs Z) : Slice * lobs Z := (gslice (fst r), snd r).
+
+Lemma gpopall_popall : forall fuel vals k acc,
+  gpopall fuel (gslice vals) k acc = cv (fun r => (gslice (fst r), snd r)) (popall Z fuel (sl_pop Z ltv) vals k acc).
+Proof.
+  induction fuel as [|f IH]; intros vals k acc; [reflexivity|]. cbn [gpopall popall].
+  rewrite code_Pop by apply le_n. cbn [gslice Slice_Values Slice_cmp].
+  destruct (sl_pop Z ltv vals) as [[v' o]| |]; cbn [cv bind Heap.bind st_opt with_values fst snd Slice_cmp]; try reflexivity.
+  rewrite opt_of_res. destruct o as [x|]; [|reflexivity]. destruct (k =? 1); [reflexivity|apply IH].
+Qed.
+
+Lemma gstep_lstep : forall vals o, gstep (gslice vals) o = cv st_obs (lstep Z ltv false vals o).
+Proof.
+  intros vals o. unfold st_obs.
+  destruct o; cbn [gstep lstep gslice Slice_Values];
+    rewrite ?code_Push, ?code_Pop, ?code_Remove, ?code_Fix, ?code_build_model, ?code_Peek, ?code_Len, ?gpopall_popall by apply le_n;
+    cbn [gslice Slice_Values Slice_cmp];
+    repeat (match goal with
+            | |- context [cv _ ?x] =>
+                lazymatch x with Ok _ => fail | Heap.Panic => fail | Heap.NoFuel => fail | _ => destruct x as [?| |] end
+            end; cbn [cv bind Heap.bind]);
+    repeat match goal with p : (_ * _)%type |- _ => destruct p end;
+    cbn [cv bind Heap.bind st_opt with_values opt_res fst snd Slice_cmp]; rewrite ?opt_of_res; try reflexivity.
+  all: repeat match goal with o : option Z |- _ => destruct o end; reflexivity.
+Qed.
+
+Lemma grun_lrun : forall ops vals, grun (gslice vals) ops = cv id (lrun Z ltv false vals ops).
+Proof.
+  induction ops as [|o t IH]; intros vals; cbn [grun lrun]; [reflexivity|].
+  rewrite gstep_lstep. destruct (lstep Z ltv false vals o) as [[v' r]| |]; cbn [cv bind Heap.bind st_obs fst snd]; try reflexivity.
+  rewrite IH. destruct (lrun Z ltv false v' t); reflexivity.
+Qed.
+
+Lemma gcase_lcase : forall init ops, gcase init ops = cv id (lcase Z ltv false init ops).
+Proof.
+  intros. unfold gcase, lcase. rewrite code_build_model by apply le_n.
+  destruct (buildL Z ltv init) as [v| |]; cbn [cv bind Heap.bind]; unfold id; try reflexivity.
+  rewrite grun_lrun. destruct (lrun Z ltv false v ops); reflexivity.
+Qed.
+
+(* what the check executes as `entry 0` on a Slice case IS the generated code *)
+Theorem entry_code_is_entry : forall sub args, entry_code sub args = entry sub args.
+Proof.
+  intros sub args. unfold entry_code. destruct (sub =? 0) eqn:Es; [|reflexivity].
+  destruct (dec_case args) as [[[|] init ops|ops]|] eqn:Ed; try reflexivity.
+  unfold entry. rewrite Ed, Es. apply Z.eqb_eq in Es. subst sub. cbn [Z.eqb]. unfold model.
+  rewrite gcase_lcase. destruct (lcase Z ltv false init ops); reflexivity.
+Qed.
+
+(* in-kernel anchor: the generated code computes (same case as Run/C04.v anchor_slice) *)
+Example anchor_slice_code :
+  entry_code 0 [0; 3; 2001; 1002; 3; 0;4;0; 1;0;0; 4;0;0; 8;0;0] =
+  [3; 3; 1002; 2001; 4; 3; 4; 2001; 1002; 1; 3; 3; 4; 1002; 2001; 1; 4; 2; 1002; 2001; 2; 1002; 2001; 0].
+Proof. vm_compute. reflexivity. Qed.
